@@ -413,13 +413,14 @@ pub fn odd_chain_cells() -> Vec<(String, String, Value)> {
     let lab = lab();
     let mut out = Vec::new();
     // (server presents, certificate added by the caller, name matches good.test, what it is)
-    let menu: [(&str, &str, bool, &str); 7] = [
+    let menu: [(&str, &str, bool, &str); 8] = [
         ("expired", "expired", true, "the added certificate is the expired leaf itself"),
         ("notyet", "notyet", true, "the added certificate is the not-yet-valid leaf itself"),
         ("expiredother", "expiredother", false, "the added certificate is the expired other-name leaf itself"),
         ("othername", "othername", false, "the added certificate is the other-name leaf itself"),
         ("forged", "root", true, "leaf issued by an end-entity certificate (CA:FALSE) that chains to the added root"),
         ("deep", "root", true, "chain root -> CA(pathlen 0) -> sub-CA -> leaf, path length exceeded"),
+        ("nosan", "cnca", false, "leaf without any subjectAltName (CN=other.test) issued by the added CA, whose own common name is good.test"),
         ("good", "root", true, "control: the plain good chain"),
     ];
     for (presented, added, name_matches, what) in menu {
@@ -463,7 +464,8 @@ pub fn odd_chain_cells() -> Vec<(String, String, Value)> {
                     continue;
                 }
                 // the only cell the rule leaves open: pinned other-name leaf with the name match waived
-                let open = presented == "othername" && aih;
+                // (and the SAN-less leaf is only a name mismatch: its chain and dates are fine)
+                let open = (presented == "othername" || presented == "nosan") && aih;
                 let _ = name_matches;
                 if ok && !open {
                     out.push((format!("C14:unauthenticated-peer-accepted:OddChain:{presented}"), format!("{desc}: the exchange succeeded ({shown})"), case));
@@ -473,7 +475,7 @@ pub fn odd_chain_cells() -> Vec<(String, String, Value)> {
     }
     out
 }
-pub const ODD_CHAIN_CELLS: u64 = 7 * 2 * 2;
+pub const ODD_CHAIN_CELLS: u64 = 8 * 2 * 2;
 
 //
 // One session used for several exchanges in a row, with its own setters called in between and no
@@ -566,3 +568,53 @@ pub fn session_sequence_cells() -> Vec<(String, String, Value)> {
     out
 }
 pub const SESSION_SEQUENCE_CELLS: u64 = 6 * 2;
+
+//
+// Host spellings that a TLS library may read as a pattern rather than a name: a leading dot
+// (OpenSSL takes ".test" for "any sub-domain of test"). The certificate is good.crt (good.test,
+// localhost, 127.0.0.1) under the added root: it does not name ".test" or ".good.test".
+//
+pub fn odd_host_cells() -> Vec<(String, String, Value)> {
+    let lab = lab();
+    let mut out = Vec::new();
+    for host in [".test", ".good.test", ".localhost"] {
+        for tunnel in [false, true] {
+            let _ = lab.take_log();
+            let (url, proxy) = if tunnel {
+                lab.proxy.set(|cfg| {
+                    cfg.outer_cert = None;
+                    cfg.inner_cert = Some("good".to_string());
+                });
+                attohttpc::verif::set_resolution("proxy.test", Some(vec![lab.proxy.addr]));
+                (format!("https://{host}:8443/r"), Some(url::Url::parse("http://proxy.test:3128").unwrap()))
+            } else {
+                lab.origin4.set(|cfg| cfg.outer_cert = Some("good".to_string()));
+                attohttpc::verif::set_resolution(host, Some(vec![lab.origin4.addr]));
+                (format!("https://{host}:{}/r", lab.origin4.addr.port()), None)
+            };
+            let res = crate::common::guarded(|| {
+                let rb = attohttpc::RequestBuilder::try_new(attohttpc::Method::GET, &url)?;
+                let rb = rb.add_root_certificate(root_cert()).timeout(std::time::Duration::from_secs(10));
+                let rb = match proxy {
+                    Some(u) => rb.proxy_settings(attohttpc::ProxySettings::builder().https_proxy(u).build()),
+                    None => rb.proxy_settings(attohttpc::ProxySettings::builder().build()),
+                };
+                rb.send().and_then(|r| r.bytes())
+            });
+            attohttpc::verif::set_resolution(host, None);
+            attohttpc::verif::set_resolution("proxy.test", None);
+            if matches!(&res, Ok(Ok(b)) if b == b"ok") {
+                out.push((
+                    "C14:unauthenticated-peer-accepted:OddHost".to_string(),
+                    format!(
+                        "[{BACKEND}] {} https://{host}/ : the peer presents good.crt (names good.test, localhost, 127.0.0.1), root added, no flag set: the exchange succeeded although the certificate does not name {host:?}",
+                        if tunnel { "tunnelled" } else { "direct" }
+                    ),
+                    json!({"engine": "c14", "backend": BACKEND, "odd_host": true}),
+                ));
+            }
+        }
+    }
+    out
+}
+pub const ODD_HOST_CELLS: u64 = 3 * 2;
